@@ -184,6 +184,8 @@ func execDecode(w []string, hx func(int) []byte) (string, bool) {
 		t := time.Unix(ps, pn)
 		err := gocql.Unmarshal(gocql.NewNativeType(4, typ, ""), data, &t)
 		return fmt.Sprintf("%s %d.%d", stat(err), t.Unix(), t.Nanosecond()), true
+	case "etext", "ejson", "emcql", "eucql", "eucqlt":
+		return execErr(w, hx), true
 	case "ucqln":
 		// nullable destinations **T: null → nil pointer; else a FRESH value is allocated and decoded into; what the
 		// pointer pointed to before must stay as it was
@@ -939,5 +941,174 @@ func runDecode(r *vh.Rng, out *vh.Out, mult int) {
 		p, pc := genPrev(r, u, last)
 		op := fmt.Sprintf("rtdirty %s %s", vh.Hex(p), vh.Hex(u))
 		out.Case(op, exec(op), "rtdirty/"+pc, true)
+	}
+}
+
+// ---- error values: Go error type and text (Lean: Model/UuidErr.lean)
+
+func nonASCII(b []byte) bool {
+	for _, c := range b {
+		if c >= 0x80 {
+			return true
+		}
+	}
+	return false
+}
+
+// showErr: ok | <E|M|U>:<hex of err.Error()>; quoted = the string a %q in the message was applied to (nil = none):
+// if it holds a byte >= 0x80 only the error's type is reported
+func showErr(err error, quoted []byte) string {
+	if err == nil {
+		return "ok"
+	}
+	k := "E:"
+	switch err.(type) {
+	case gocql.MarshalError:
+		k = "M:"
+	case gocql.UnmarshalError:
+		k = "U:"
+	}
+	if quoted != nil && nonASCII(quoted) {
+		return k + "nonascii"
+	}
+	return k + vh.Hex([]byte(err.Error()))
+}
+
+func execErr(w []string, hx func(int) []byte) string {
+	colInfo := func(c string) gocql.TypeInfo {
+		switch c {
+		case "uuid":
+			return gocql.NewNativeType(4, gocql.TypeUUID, "")
+		case "timeuuid":
+			return gocql.NewNativeType(4, gocql.TypeTimeUUID, "")
+		}
+		panic("bad-op: column type")
+	}
+	switch w[0] {
+	case "etext":
+		t := hx(1)
+		_, err := gocql.ParseUUID(string(t))
+		var u gocql.UUID
+		err2 := u.UnmarshalText(t)
+		if (err == nil) != (err2 == nil) || (err != nil && err.Error() != err2.Error()) {
+			return "inconsistent:UnmarshalText"
+		}
+		return showErr(err, append([]byte{}, t...))
+	case "ejson":
+		d := hx(1)
+		var u gocql.UUID
+		err := u.UnmarshalJSON(d)
+		trimmed := []byte(strings.Trim(string(d), `"`))
+		if len(trimmed) > 36 {
+			return showErr(err, nil) // %s: the bytes as they are
+		}
+		return showErr(err, append([]byte{}, trimmed...))
+	case "emcql":
+		var v interface{}
+		var quoted []byte
+		switch w[2] {
+		case "uuid":
+			v = uuidOf(hx(3))
+		case "arr":
+			v = [16]byte(uuidOf(hx(3)))
+		case "bytes":
+			var b []byte
+			if w[3] != "nil" {
+				b = hx(3)
+			}
+			v = b
+		case "str":
+			v = string(hx(3))
+			quoted = append([]byte{}, hx(3)...)
+		default:
+			panic("bad-op: value kind")
+		}
+		_, err := gocql.Marshal(colInfo(w[1]), v)
+		return showErr(err, quoted)
+	case "eucql":
+		var data []byte
+		if w[3] != "null" {
+			data = append([]byte{}, hx(3)...)
+		}
+		var err error
+		switch w[2] {
+		case "uuid":
+			var u gocql.UUID
+			err = gocql.Unmarshal(colInfo(w[1]), data, &u)
+		case "arr":
+			var a [16]byte
+			err = gocql.Unmarshal(colInfo(w[1]), data, &a)
+		case "bytes":
+			var b []byte
+			err = gocql.Unmarshal(colInfo(w[1]), data, &b)
+		case "str":
+			var s string
+			err = gocql.Unmarshal(colInfo(w[1]), data, &s)
+		default:
+			panic("bad-op: destination kind")
+		}
+		return showErr(err, nil)
+	case "eucqlt":
+		var data []byte
+		if w[2] != "null" {
+			data = append([]byte{}, hx(2)...)
+		}
+		var t time.Time
+		return showErr(gocql.Unmarshal(colInfo(w[1]), data, &t), nil)
+	}
+	return "bad-op"
+}
+
+// runErrs: the error-value cases of one run.
+func runErrs(r *vh.Rng, out *vh.Out, mult int) {
+	for i := 0; i < 1500*mult; i++ {
+		var s string
+		var cls string
+		if r.Bool() {
+			s, cls = genString(r)
+		} else {
+			s, cls = genText(r)
+		}
+		if r.Intn(6) == 0 { // bytes that %q escapes: quotes, backslashes, control characters, DEL
+			b := []byte(s)
+			for k := 0; k < 1+r.Intn(3) && len(b) > 0; k++ {
+				b[r.Intn(len(b))] = r.PickByte([]byte{'"', '\\', 0, 1, 7, 8, 9, 10, 11, 12, 13, 0x1b, 0x1f, 0x7f, ' ', '~', '\''})
+			}
+			s, cls = string(b), "escapes"
+		}
+		op := "etext " + vh.Hex([]byte(s))
+		a := exec(op)
+		out.Case(op, a, "etext/"+cls+"/"+a[:1], true)
+		d := s
+		switch r.Intn(4) {
+		case 0:
+			d = `"` + s + `"`
+		case 1:
+			d = `""` + s + strings.Repeat("0", r.Intn(8)) + `"`
+		}
+		op = "ejson " + vh.Hex([]byte(d))
+		a = exec(op)
+		out.Case(op, a, "ejson/"+a[:1], true)
+		op = fmt.Sprintf("emcql %s str %s", []string{"uuid", "timeuuid"}[r.Intn(2)], vh.Hex([]byte(s)))
+		a = exec(op)
+		out.Case(op, a, "emcql/str/"+a[:1], true)
+	}
+	for i := 0; i < 300*mult; i++ {
+		col := []string{"uuid", "timeuuid"}[r.Intn(2)]
+		n := []int{0, 1, 15, 16, 17, 36, 255, 256, 1000}[r.Intn(9)]
+		c := vh.Hex(r.Bytes(n))
+		if r.Intn(8) == 0 {
+			c = "nil"
+		}
+		op := fmt.Sprintf("emcql %s bytes %s", col, c)
+		a := exec(op)
+		out.Case(op, a, "emcql/bytes/"+a[:1], true)
+		data := []string{"null", "-", vh.Hex(r.Bytes(1 + r.Intn(40))), vh.Hex(genUUIDBytes(r))}[r.Intn(4)]
+		op = fmt.Sprintf("eucql %s %s %s", col, []string{"uuid", "arr", "bytes", "str"}[r.Intn(4)], data)
+		a = exec(op)
+		out.Case(op, a, "eucql/"+a[:1], true)
+		op = fmt.Sprintf("eucqlt %s %s", col, data)
+		a = exec(op)
+		out.Case(op, a, "eucqlt/"+col+"/"+a[:1], true)
 	}
 }
